@@ -63,7 +63,7 @@ def run_shard(spec):
                 vals = V.value_set(sch, w, n, rng, nrand=2, aligned_greedy=True)
             d = sch.by_name[n]
             if CC.reaches_decreasing_part_alignment(sch, w, n):
-                vals = [x for x in vals if x[0] in ('odd', None)][:1]   # known finding: one observation per type
+                vals = [x for x in vals if x[0] in ('odd', 'max', None)][:2]   # known finding: two observations per type
             for mode, v in vals:
                 be, spans = w.encode(n, v, '>')
                 le, _ = w.encode(n, v, '<')
